@@ -27,6 +27,10 @@ CLAIMS = {
   "Deductive: PSyLoop.has_inc_arg (nested loops, invariants) returns exactly 'some kernel argument has increment or read-then-increment access'; DynamoOMPParallelLoopTrans.validate and Dynamo0p3OMPLoopTrans.validate return normally only for a loop over a single colour, or without such an argument (or on a discontinuous space for the former); LFRicLoop.independent_iterations (consulted by the generic OpenMP/OpenACC loop transformations) never reports a 'colours' loop independent and reports a loop over all cells independent only without such an argument unless the generic analysis proved independence; Dynamo0p3ColourTrans.apply refuses inside an OpenMP directive, for non-cell loops and discontinuous spaces. One defect was repaired (fix: 01cd2b8, READINC ignored), one is a recorded known finding (colouring accepted inside an OpenACC parallel region).",
   "Assumed: accessor properties and tree queries (coded_kernels, ancestor, arguments, access, loop_type, field_space) as engine hooks returning stored attributes; base-class validate/apply may raise or return. NOT under contract: ParallelLoopTrans.validate's refusal of 'colours' loops, ParallelRegionTrans.validate, the OpenACC transformations' own bodies and the induction over transformation sequences.",
   TECH + "; reachability (cover) checks against vacuity"),
+ "C11": ("proof",
+  "Deductive, over a ghost event clock (visit / add_access / merge events, time-stamped; monotone visited-by and accessed-by sets): Call.reference_accesses records an access of type READ (pure routine) or READWRITE for every by-reference argument, visits EVERY index expression of EVERY component of such an argument and visits every expression argument; IntrinsicCall.reference_accesses visits every argument except the first one of an inquiry intrinsic (all of them with COLLECT-ARRAY-SHAPE-READS); Assignment.reference_accesses collects the target into a fresh collector, marks it written, and merges it strictly after the right-hand side has been visited. Plus one table obligation per entry of the real IntrinsicCall.Intrinsic table: an entry flagged is_inquiry (whose first argument is then not reported as read) must be an inquiry function of Fortran 2008 s13.5.",
+  "Assumed: child.reference_accesses(va) is recorded as an event (induction hypothesis over the tree); get_signature_and_indices returns a non-empty list of index lists that is a function of the reference; the hand-transcribed list of Fortran 2008 inquiry functions. NOT under contract: Reference / ArrayMixin / Loop / IfBlock / kernel-call collectors, add_access / merge / SingleVariableAccessInfo internals, which arguments an intrinsic subroutine writes.",
+  TECH + "; table obligations evaluated from the real intrinsic table; reachability (cover) checks against vacuity"),
  "C12": ("proof",
   "Deductive, over an abstract access view (per signature an arbitrary sequence of access records with the real access type and two ghost attributes: covers the whole variable / executed unconditionally): CallTreeUtils.get_input_parameters records every variable whose incoming value can be read (a reading access not preceded by an unconditional whole-variable write) outside the recorded known class, and get_output_parameters records every variable with a writing access; neither removes entries nor touches the other list. SingleVariableAccessInfo.is_written_first/is_written and VariablesAccessInfo.is_written are verified inlined. Known finding (open): a first access that is a partial or conditional write hides a later read of the incoming value.",
   "Assumed: the access records are what reference_accesses produces (C11 link, not built); all_signatures/__getitem__/add_read/add_write as engine hooks. NOT under contract: _resolve_calls_and_unknowns / non-local symbol collection and the ExtractNode plumbing (seeded changes C12a/C12b are missed for this reason).",
